@@ -808,7 +808,25 @@ impl<'a> Renderer<'a> {
             }
             E::Fail => "fail @\"f\"".into(),
             E::Todo => "todo @\"t\"".into(),
-            E::TraceIfFalse(a) => format!("{}?", self.atom(a, ind)),
+            E::TraceIfFalse(a) => {
+                // `(x && y)?` has a second spelling, the `and { x, y }?` block (same meaning, own elaboration)
+                if let E::And(x, y) = a.as_ref() {
+                    if (format!("{:?}", x).len() + format!("{:?}", y).len()) % 2 == 0 {
+                        let pad = "  ".repeat(ind + 1);
+                        // `a && (b && c)` is `and { a, b, c }`
+                        let mut items: Vec<&E> = vec![x.as_ref()];
+                        let mut cur: &E = y.as_ref();
+                        while let E::And(p, q) = cur {
+                            items.push(p.as_ref());
+                            cur = q.as_ref();
+                        }
+                        items.push(cur);
+                        let body: String = items.iter().map(|e| format!("{pad}{},\n", self.expr(e, ind + 1))).collect();
+                        return format!("and {{\n{}{}}}?", body, "  ".repeat(ind));
+                    }
+                }
+                format!("{}?", self.atom(a, ind))
+            }
         }
     }
 
@@ -1322,6 +1340,15 @@ impl<'a> Gen<'a> {
                 }
                 10 => {
                     self.hit("trace-if-false");
+                    if self.r.chance(1, 2) {
+                        // `?` on a conjunction of two or three operands (rendered as `&&` or as an `and { }` block);
+                        // later operands may fail, earlier ones guard them
+                        self.hit("trace-if-false-on-and");
+                        let a = self.gen_expr(&Ty::Bool, scope, d);
+                        let b = self.gen_expr(&Ty::Bool, scope, d);
+                        let rest = if self.r.chance(1, 2) { E::And(bx(b), bx(self.gen_expr(&Ty::Bool, scope, d))) } else { b };
+                        return E::TraceIfFalse(bx(E::And(bx(a), bx(rest))));
+                    }
                     E::TraceIfFalse(bx(self.gen_expr(&Ty::Bool, scope, d)))
                 }
                 _ => self.leaf(ty, scope),
